@@ -13,6 +13,7 @@ import Wencry.Model.IoBuffer
 import Wencry.Model.File
 import Wencry.Model.Pipe
 import Wencry.Model.Cli
+import Wencry.Model.Getopt
 import Wencry.Spec.AES
 import Wencry.Spec.Modes
 import Wencry.Spec.Hash
@@ -35,6 +36,16 @@ def hexB (bs : Bytes) : String := let s := hexOf bs; if s.isEmpty then "-" else 
 
 def fileFault : File.Fault → String
   | .nullDeref => "fault:nullDeref"
+
+/-- write log with adjacent sequential writes merged: the order of writes, independent of how stdio or the code chunk them -/
+def canonLog (log : List (Nat × Bytes)) : List (Nat × Nat) :=
+  log.foldl (fun acc w =>
+    match acc.getLast? with
+    | some (o, l) => if o + l = w.1 then acc.dropLast ++ [(o, l + w.2.length)] else acc ++ [(w.1, w.2.length)]
+    | none => [(w.1, w.2.length)]) []
+
+def canonLogStr (log : List (Nat × Bytes)) : String :=
+  if log.isEmpty then "-" else ",".intercalate ((canonLog log).map fun (o, l) => s!"{o}:{l}")
 
 def logStr (log : List (Nat × Bytes)) : String :=
   if log.isEmpty then "-" else ",".intercalate (log.map fun (o, b) => s!"{o}:{b.length}")
@@ -159,7 +170,7 @@ def handle (ws : List String) : String :=
     match T.toNat?, B.toNat?, H.toNat?, c.toNat?, h.toNat?, blockOf? k, unhex? seed, unhex? plain with
     | some T, some B, some H, some c, some h, some k, some seed, some plain =>
       match File.encrypt { T := T, B := B, H := H } c h k seed plain with
-      | .ok f => logStr f.log
+      | .ok f => canonLogStr f.log
       | .error e => fileFault e
     | _, _, _, _, _, _, _, _ => "bad-op"
   | ["senc", T, B, c, h, k, seed, plain] =>
@@ -182,6 +193,7 @@ def handle (ws : List String) : String :=
     | _, _, _, _, _ => "bad-op"
   | "pipe" :: rest => Pipe.driverPipe rest
   | "cli" :: rest => Cli.driverCli rest
+  | "argv" :: rest => Getopt.driverArgv rest
   | _ => "bad-op"
 
 partial def loop (h : IO.FS.Stream) (out : IO.FS.Stream) : IO Unit := do
